@@ -11,7 +11,7 @@
 // input:  one run per `--- name` section:
 //   seed <n>          schedule seed
 //   spur <permille>   probability of a spurious wake-up / time-out choice
-//   thread <call> <call> ...     calls: enq proc one ifE ifO untE untO take peek clear empty wait waitfor dqnb dqne
+//   thread <call> <call> ...     calls: enq proc one ifE ifO untE untO take peek clear empty wait waitfor dqnb dqne dqnc dqna
 //                                (ifE / ifO: processIf declining even / odd event ids;
 //                                 untE / untO: processUntil stopping at the first even / odd event id)
 #include <eventpp/eventqueue.h>
@@ -317,6 +317,13 @@ static void runOne(const Run & r) {
 #endif
 					for(auto & c : r.progs[t]) {
 						tl_call = c.c_str();
+						// call boundaries in the global order of the run (only the thread that holds the baton runs), for the
+						// oracles that are evaluated on the implementation's own trace (C11)
+						auto mark = [&](const std::string & what) { std::lock_guard<std::mutex> lk(s.m); s.log.push_back("mark " + std::to_string(t) + " " + what); };
+						mark("begin " + c);
+						struct MarkEnd { decltype(mark) & m; std::vector<std::string> & r; size_t n0; const std::string & c; long pay; Sched & s;
+							~MarkEnd() { if(r.size() > n0) { std::string x = "end " + c + " " + r.back(); if(c == "enq") { long g; { std::lock_guard<std::mutex> lk(s.m); g = s.gidOf.count(pay) ? s.gidOf[pay] : -1; } x += " " + std::to_string(g); } m(x); } } }
+							markEnd{mark, rets[t], rets[t].size(), c, (long)(t * 1000 + k), s};
 						if(c == "enq") { tl_payload = t * 1000 + k; q.enqueue(1, (long)(t * 1000 + k)); ++k; rets[t].push_back("unit"); }
 						else if(c == "proc") rets[t].push_back(q.process() ? "true" : "false");
 						else if(c == "one") rets[t].push_back(q.processOne() ? "true" : "false");
@@ -354,6 +361,11 @@ static void runOne(const Run & r) {
 						else if(c == "peek") { Queue::QueuedEvent ev; rets[t].push_back(q.peekEvent(&ev) ? "true" : "false"); }
 						else if(c == "dqnb") { dqn.emplace_back(new Queue::DisableQueueNotify(&q)); rets[t].push_back("unit"); }
 						else if(c == "dqne") { if(!dqn.empty()) dqn.pop_back(); rets[t].push_back("unit"); }
+						// a COPY of the newest live object is one more live object (for the model: another dqnb)
+						else if(c == "dqnc") { if(dqn.empty()) dqn.emplace_back(new Queue::DisableQueueNotify(&q)); else dqn.emplace_back(new Queue::DisableQueueNotify(*dqn.back())); rets[t].push_back("unit"); }
+						// a temporary assigned to the newest live object: the temporary comes and goes, the count is what it was
+						// (for the model: dqnb followed by dqne, hence two results)
+						else if(c == "dqna") { if(dqn.empty()) { Queue::DisableQueueNotify tmp(&q); } else { *dqn.back() = Queue::DisableQueueNotify(&q); } rets[t].push_back("unit"); rets[t].push_back("unit"); }
 #endif
 						else if(c == "clear") { q.clearEvents(); rets[t].push_back("unit"); }
 						else if(c == "empty") rets[t].push_back(q.emptyQueue() ? "true" : "false");
